@@ -3626,8 +3626,9 @@ func traverseAfterEdit(c *Ctx) {
 		}
 		root := nodes[0]
 		oracle := ""
+		modes := []bool{true, false}
 		check := func(when string) {
-			for _, pre := range []bool{true, false} {
+			for _, pre := range modes {
 				var got, want []string
 				it := root.PostOrder()
 				if pre {
@@ -3648,6 +3649,23 @@ func traverseAfterEdit(c *Ctx) {
 			}
 		}
 		st := safe(func() string {
+			// first with ONE order throughout (pre, edit, pre, edit, … then post …): nothing but the edit lies between two
+			// traversals of the same kind; then both orders alternating
+			for _, one := range [][]bool{{true}, {false}} {
+				modes = one
+				check("first traversal")
+				q := nodes[c.rng.Intn(n)]
+				q.Children = append(q.Children, &newick.Node{Name: "x"})
+				check("traversed again in the same order after a leaf was added below the same root")
+				for _, q2 := range nodes {
+					if len(q2.Children) >= 2 {
+						q2.Children[0], q2.Children[len(q2.Children)-1] = q2.Children[len(q2.Children)-1], q2.Children[0]
+						break
+					}
+				}
+				check("traversed again in the same order after two children were swapped")
+			}
+			modes = []bool{true, false}
 			check("first traversal")
 			p := nodes[c.rng.Intn(n)]
 			p.Children = append(p.Children, &newick.Node{Name: "new"})
